@@ -5022,3 +5022,24 @@ def extract_state_rules(ctx):
         ctx.must_pass(f, cl + [cpoint(c) for c in f.calls if c.matches(('RangeMut::remove_next', 'RangeMut::remove_prev'))], exits='success', what='an exhausted scan is closed before it reports the end')
         stp = ctx.sites(f, step, exact=1)
         ctx.guarded(f, stp, [Guard(place='matched', vals={'false'})], 'the cursor steps over an entry only when the predicate rejected it')
+
+
+def tree_root_update_rules(ctx):
+    ctx.set_rule('C10.R8', '')
+    for pat in ('MutateHelper::insert', 'MutateHelper::finish_deletion'):
+        f = ctx.fn(pat)
+        if f is None:
+            continue
+        s_ = core.sym(f)
+        pts = []
+        for bi, b in enumerate(f.blocks):
+            if b['c']:
+                continue
+            for si, st in enumerate(b['s']):
+                if st[0] == 'a' and st[1][1] == ['*']:
+                    t = s_.local(st[1][0])
+                    if t[0] == 'place' and t[2] and t[2][-1] == '.root':
+                        pts.append(Point(f, bi, si, 'store *self.root', st[3]))
+        ctx.check(len(pts) >= 1, 'floor|%s|root-store' % f.path, '%s writes the tree root through self.root' % pat, f, f.line)
+        if pts:
+            ctx.must_pass(f, pts, exits='success', what='the new root is stored on every success path of %s' % pat)
